@@ -56,7 +56,7 @@ func init() {
 	add("C01", "R01g: in every function under (*MapPollard).Modify that calls the growth step, that call dominates every Put into the node store and the leaf index. ", "")
 	add("C01", "R01f: under Stump.Update, Pollard.Modify and MapPollard.Modify every store into a NumLeaves field is an increment of the value read from that field.", "")
 	add("C11", "R11i = R01f for (*Stump).Update.", "")
-	add("C07", "R07g: in the closure of (*Proof).Update every discarded error of a position function is excluded by a dominating guard, by a reviewed lemma that covers every failing return of the callee, or by the reviewed caller->callee table (valid while the callee has the reviewed number of failing returns).", "")
+	add("C07", "R07g: in the closure of (*Proof).Update every discarded error of a position function is excluded by a dominating guard, by a reviewed lemma that covers every failing return of the callee, or by the reviewed caller->callee table (valid while the callee has the reviewed number of failing returns). R07h: a list parameter walked with a forward-only cursor against a loop counter is sorted on its way from the exported entry.", "")
 	add("C03", "R03i: neither hash input of the parent-hash step in the core can be the default value of its variable (no path leaves the sibling unassigned).", "")
 	add("C04", "R04e also covers the mirror image: a library-computed slice indexed by a counter whose only bound is the length of a caller-supplied slice needs a dominating test relating the two lengths (verification bounds the caller's lists from below only).", "")
 }
